@@ -335,10 +335,15 @@ class Parser(object):
         name = line[len(keyword) + 1:].strip()
         rule = model.Rule(self.filename, self.line, keyword, name,
                           tags=self.tags)
+        if self.feature is None and (self.variant != "rule" or self.rule is not None):
+            # -- CASE: parse_scenario(), parse_steps() or second rule in parse_rule()
+            raise ParserError(self.diagnose_rule_usage_error(),
+                              self.line, self.filename, line)
         self.rule = rule
         self.scenario_container = rule
         self.statement = rule
-        self.feature.add_rule(self.statement)
+        if self.feature is not None:
+            self.feature.add_rule(self.statement)
         # -- RESET STATE:
         self.tags = []
 
@@ -351,6 +356,10 @@ class Parser(object):
                 # -- HINT: Rule may have default background w/o steps.
                 msg = u"Second Background (can have only one)"
                 raise ParserError(msg, self.line, self.filename, line)
+        if self.scenario_container is None:
+            # -- CASE: parse_rule(), parse_scenario() without Feature/Rule.
+            msg = u"Background should not be used here."
+            raise ParserError(msg, self.line, self.filename, line)
         name = line[len(keyword) + 1:].strip()
         background = model.Background(self.filename, self.line, keyword, name)
         self.scenario_container.add_background(background)
@@ -374,7 +383,8 @@ class Parser(object):
         template = model.ScenarioOutline(self.filename, self.line, keyword, name,
                                          tags=self.tags)
         self.statement = template
-        self.scenario_container.add_scenario(template)
+        if self.scenario_container:
+            self.scenario_container.add_scenario(template)
 
         # -- RESET STATE:
         self.tags = []
@@ -620,6 +630,9 @@ class Parser(object):
             self.state = State.BACKGROUND
             return True
 
+        if self.rule is None:
+            # -- CASE: parse_rule() and Rule keyword was not seen yet.
+            return False
         self.rule.description.append(line)
         return True
 
@@ -637,6 +650,10 @@ class Parser(object):
         """
         self.last_step_type = None
         line = line.strip()
+        if self.statement is None:
+            # -- CASE: parse_scenario() and Scenario keyword was not seen yet.
+            return self.subaction_detect_taggable_statement(line)
+
         step = self.parse_step(line)
         if step:
             # -- FIRST STEP DETECTED: End collection of description-part.
@@ -807,8 +824,7 @@ class Parser(object):
         :return: List of parsed rule (as :class:`~behave.model:Rule` object).
         """
         self._parse_loop(text, initial_state=State.RULE, filename=filename)
-        rule = self.statement
-        return rule
+        return self.rule
 
 
         for line in text.splitlines():
